@@ -29,6 +29,10 @@ pub struct WFile {
     pub tape: B,
     /// switches for constructs tied to known findings
     pub raw_eol_in_strings: bool,
+    /// constructs outside the strict reader's domain, for the schedule check only (bit 0: an object number that no
+    /// cross-reference entry names, present in two object streams; bit 1: a number listed twice in one object stream)
+    #[serde(default)]
+    pub quirks: u8,
 }
 
 #[derive(Clone, Debug, Default)]
@@ -596,6 +600,35 @@ pub fn write(f: &WFile) -> WOutput {
         if !in_objstm.is_empty() {
             packed.push(in_objstm);
         }
+        packed.retain(|g| !g.is_empty());
+        let mut orphans: BTreeSet<u32> = BTreeSet::new();
+        if f.quirks & 1 != 0 && packed.len() >= 2 {
+            w.feat.insert("quirk-orphan-number-in-two-containers");
+            let m = alloc_number(&mut w, &mut next_free, &mut gaps);
+            let a = w.tape.pick(packed.len());
+            let mut b = w.tape.pick(packed.len() - 1);
+            if b >= a {
+                b += 1;
+            }
+            let pa = w.tape.pick(packed[a].len() + 1);
+            packed[a].insert(pa, (m, AObj::Int(1000 + a as i64)));
+            let pb = w.tape.pick(packed[b].len() + 1);
+            packed[b].insert(pb, (m, AObj::Int(2000 + b as i64)));
+            orphans.insert(m);
+        }
+        if f.quirks & 2 != 0 && !packed.is_empty() {
+            w.feat.insert("quirk-number-twice-in-one-container");
+            let g = w.tape.pick(packed.len());
+            let k = w.tape.pick(packed[g].len());
+            let num = packed[g][k].0;
+            if !orphans.contains(&num) {
+                let copies = 1 + w.tape.pick(2);
+                for c in 0..copies {
+                    let at = w.tape.pick(packed[g].len() + 1);
+                    packed[g].insert(at, (num, AObj::Int(3000 + c as i64)));
+                }
+            }
+        }
         // object streams
         for group in packed.iter().filter(|g| !g.is_empty()) {
             w.feat.insert("objstm");
@@ -639,6 +672,9 @@ pub fn write(f: &WFile) -> WOutput {
                 d.push((B::from("Filter"), AObj::name("FlateDecode")));
             }
             for (i, (num, _)) in group.iter().enumerate() {
+                if orphans.contains(num) {
+                    continue;
+                }
                 entries.insert(*num, XEntry::Compressed(cnum, i as u32));
                 placement.insert(*num, Some(cnum));
             }
